@@ -61,6 +61,79 @@ def replay(prop, path):
             return 1
         print("ReadsBound / LoopVarsScoped hold on every path now")
         return 0
+    if kind == "tree" and v.get("spec", "").startswith("einsum:"):
+        # C09: the statement tree the translator builds now vs CPython's parse of what it prints now, judged by TreeEq.tla
+        import printerpipe
+        import treeir
+        import common
+        from checks import C09
+        hw = "architecture:" in v["spec"]
+        try:
+            h = C09.compile_obj(v["spec"], hw)
+        except Exception as ex:
+            print("the current compiler rejects the specification (%s): violation gone" % type(ex).__name__)
+            return 0
+        text = str(h)
+        rep = common.Report(prop, "quick")
+        with workdir("replay") as wd:
+            found = printerpipe.run_treeeq([{"kind": "prog", "tree": treeir.convert(h), "text": hfir.convert(text)}], wd, rep)
+        for _, _, k, why in found:
+            print("statement %d: %s" % (k, why))
+            if 0 < k <= len(text.splitlines()):
+                print("   tree : %s" % json.dumps(treeir.convert(h)[k - 1])[:600])
+                print("   text : %s" % json.dumps(hfir.convert(text)[k - 1])[:600])
+        if not found:
+            print("every printed statement denotes the tree that was built (TreeEq.tla)")
+        return 1 if found else 0
+    if kind == "session" and v.get("history"):
+        # C15: the recorded history, after the compilations that preceded it in its interpreter, in ONE fresh interpreter; references from
+        # fresh interpreters; judged by SessionTrace.tla
+        import subprocess
+        import sys
+        import common
+        import sessionpipe
+        specs = sessionpipe.pool(__import__("random").Random(common.seed()))
+        if v.get("specname") not in specs:
+            specs[v.get("specname", "s")] = v["spec"]
+        before = [n for n in v.get("compiled_earlier_in_this_interpreter", []) if n in specs]
+        hist = [a for n in before for a in ({"act": "parse", "spec": n}, {"act": "compile", "spec": n})] + v["history"]
+        code = ("import sys, json; sys.path.insert(0, %r); sys.path.insert(0, %r); import common, sessionpipe; d = json.load(sys.stdin); "
+                "print('EVS' + json.dumps(sessionpipe.replay(d['hist'], d['specs'])))" % (common.REPO, os.path.dirname(os.path.abspath(__file__))))
+        r = subprocess.run([sys.executable, "-c", code], input=json.dumps({"hist": hist, "specs": specs}), capture_output=True, text=True, timeout=1200)
+        line = [l for l in r.stdout.splitlines() if l.startswith("EVS")]
+        if not line:
+            print("replay failed:", r.stderr[-400:])
+            return 2
+        evs = json.loads(line[-1][3:])
+        names = sorted({a["spec"] for a in hist})
+        refs = sessionpipe.fresh_refs({n: specs[n] for n in names})
+        rep = common.Report(prop, "quick")
+        with workdir("replay") as wd:
+            rejected, accepted = sessionpipe.validate([refs + evs], wd, rep, "rp", every=True)
+        for l, why in rejected.get(1, []):
+            print("event %d %s: %s" % (l - len(refs), json.dumps(evs[l - len(refs) - 1]), why))
+        if not rejected:
+            print("the history is a behaviour of Session.tla now (no mutation, repeatable, equal to the fresh-interpreter references)")
+        return 1 if rejected else 0
+    if kind == "defaults" and v.get("explicit_spec"):
+        from checks import C19
+        a, b = C19.outcome(v["spec"]), C19.outcome(v["explicit_spec"])
+        print("sections omitted     -> %s\ndefault written out  -> %s" % (a, b))
+        return 1 if a != b else 0
+    if kind == "legality" and v.get("spec"):
+        from checks import C18
+        o = C18.outcome(v["spec"], "architecture:" in v["spec"])
+        print(v["spec"])
+        print("site:", v.get("site"), " outcome now:", o)
+        return 1 if o == v.get("outcome") else 0
+    if kind == "compile" and v.get("spec"):
+        try:
+            execpipe.compile_text(v["spec"], hw="architecture:" in v["spec"])
+            print("the specification compiles now")
+            return 0
+        except Exception as ex:
+            print("still fails: %s: %s" % (type(ex).__name__, str(ex)[:200]))
+            return 1
     print(json.dumps({k: v[k] for k in v if k not in ("text",)}, indent=1)[:4000])
     print("(this kind of violation is replayed by re-running the check: ./check %s)" % prop)
     import importlib
